@@ -2,9 +2,18 @@
    Abstract pool state (r0, r1, T): the pair's two actual reserves and the LP supply.  Every way a
    pair's reserves or supply can move is a [pool_step] kind whose arithmetic premises are what the
    function-level theorems establish; [C03_hist_abstract] is the induction over any finite sequence of
-   such steps.  PARTIAL: that each world transaction acts on each pair as a sequence of pool steps is
-   established per operation by the ledger lemmas (C02/C04/C05 blocks) and monitored on the real code
-   at every step of every history; a single theorem over [run] is not proved.
+   such steps.  System level (second half of the file, from Proofs/ValueHistProofs.v): every successful
+   user-submitted transaction moves every pair's (reserve0, reserve1, supply) along a finite path of
+   abstract steps, each a value-non-decreasing [pool_step] or a swap in the recorded class ([C03_tx_path],
+   [C03_history_path] over [run]); operations that cannot swap never lower any pair's value, over any
+   history ([C03_swapless_tx], [C03_swapless_history]); a direct swap (either entry point) outside the class
+   never lowers any pair's value ([C03_direct_swap_tx], [C03_hook_swap_tx]).  Assembled ([C03_history], from
+   Proofs/ValueHistProofs2.v): over ANY history of user-submitted operations - provisions, withdrawals, swaps by
+   either entry point, router routes of any length, donations, transfers, mints, burns, factory calls, rejected
+   calls - from a well-formed, solvent start, in which no SUCCESSFUL swap (direct, hooked, or a hop of a route,
+   judged on the reserves at the moment it is priced) falls in the recorded class [kf_c01], the value of every
+   pair with positive supply never decreases and the supply stays positive.  ([C03_tx_path]'s bare path
+   statement is permissive - [path_true_is_permissive] - and is kept only as the structural half.)
    Known finding KF-ceil-window: a swap inside [kf_c01] lowers the value ([C03_refuted]). *)
 From HT Require Import Base.Prelude Num.Arith Amm.Formulas Amm.Guards Amm.Known World.World Proofs.ValueProofs Proofs.ValueLinks Proofs.LedgerProofs Proofs.SystemPoolProofs.
 
@@ -86,3 +95,123 @@ Print Assumptions C03_swap_is_step.
 Print Assumptions C03_value_le_trans.
 Print Assumptions C03_refuted.
 Print Assumptions C03_nonvacuous.
+
+From HT Require Import World.Observe Proofs.WFProofs Proofs.SolventProofs Proofs.LockedProofs Proofs.ValueHistProofs.
+Theorem C03_path_false_value : forall s s', path false s s' -> 0 < supply_of s -> value_le s s' /\ 0 < supply_of s'.
+Proof. exact path_false_value. Qed.
+Print Assumptions C03_path_false_value.
+
+Theorem C03_swapless_history : forall ops w p ps,
+  WF w -> Solvent w -> Inert' w -> user_ops w ops -> w_next (run w ops) <= 1000 ->
+  Forall (fun o => swapless o = true) ops ->
+  w_pairs w p = Some ps -> 0 < supply w (p_lp ps) ->
+  value_le (pool_at w p ps) (pool_at (run w ops) p ps) /\ 0 < supply (run w ops) (p_lp ps).
+Proof. exact run_swapless_value. Qed.
+Print Assumptions C03_swapless_history.
+
+Theorem C03_direct_swap_tx : forall w p' ps' c d amount bp ms to w' p ps,
+  WF w -> Solvent w -> Inert' w -> ~ is_contract w c -> w_pairs w p' = Some ps' ->
+  kf_c01 (bal w (ANative d) p') (bal w (if asset_eqb (ANative d) (p_a0 ps') then p_a1 ps' else p_a0 ps') p')
+         amount (p_comm ps') = false ->
+  exec w (OSwap p' c [(d, amount)] (ANative d) amount bp ms to) = Ok w' ->
+  w_pairs w p = Some ps -> 0 < supply w (p_lp ps) ->
+  path false (pool_at w p ps) (pool_at w' p ps).
+Proof. exact exec_direct_swap_value_variant. Qed.
+Print Assumptions C03_direct_swap_tx.
+
+Theorem C03_direct_swap_tx_funds : forall w p' ps' c funds offer amount bp ms to w' p ps,
+  WF w -> Solvent w -> Inert' w -> ~ is_contract w c -> w_pairs w p' = Some ps' ->
+  (forall w1, move_funds w c p' funds = Ok w1 ->
+     kf_c01 (bal w1 offer p' - amount) (bal w1 (if asset_eqb offer (p_a0 ps') then p_a1 ps' else p_a0 ps') p')
+            amount (p_comm ps') = false) ->
+  exec w (OSwap p' c funds offer amount bp ms to) = Ok w' ->
+  w_pairs w p = Some ps -> 0 < supply w (p_lp ps) ->
+  path false (pool_at w p ps) (pool_at w' p ps).
+Proof. exact exec_direct_swap_value_funds. Qed.
+Print Assumptions C03_direct_swap_tx_funds.
+
+Theorem C03_hook_swap_tx : forall w ta sender p' ps' n offer amount bp ms to w' p ps,
+  WF w -> Solvent w -> Inert' w -> ~ is_contract w sender -> w_pairs w p' = Some ps' ->
+  kf_c01 (bal w offer p') (bal w (if asset_eqb offer (p_a0 ps') then p_a1 ps' else p_a0 ps') p')
+         amount (p_comm ps') = false ->
+  exec w (OSend ta sender p' n (HSwap offer amount bp ms to)) = Ok w' ->
+  w_pairs w p = Some ps -> 0 < supply w (p_lp ps) ->
+  path false (pool_at w p ps) (pool_at w' p ps).
+Proof. exact exec_hook_swap_value. Qed.
+Print Assumptions C03_hook_swap_tx.
+
+Theorem C03_tx_path : forall w o w' p ps,
+  WF w -> Solvent w -> Inert' w -> w_pairs w (w_rtr w) = None -> ~ is_contract w (caller_of o) ->
+  exec w o = Ok w' -> w_pairs w p = Some ps -> 0 < supply w (p_lp ps) ->
+  exists b, path b (pool_at w p ps) (pool_at w' p ps).
+Proof. exact exec_pool_path_variant. Qed.
+Print Assumptions C03_tx_path.
+
+Theorem C03_tx_path_flag : forall w o w' p ps,
+  WF w -> Solvent w -> Inert' w -> ~ is_contract w (caller_of o) ->
+  (routerless o = false -> w_pairs w (w_rtr w) = None) ->
+  exec w o = Ok w' -> w_pairs w p = Some ps -> 0 < supply w (p_lp ps) ->
+  exists b, path_at (p_comm ps) b (pool_at w p ps) (pool_at w' p ps) /\ (swapless o = true -> b = false).
+Proof. exact exec_pool_path_flag. Qed.
+Print Assumptions C03_tx_path_flag.
+
+Theorem C03_history_path : forall ops w p ps,
+  WF w -> Solvent w -> Inert' w -> w_pairs w (w_rtr w) = None -> user_ops w ops -> w_next (run w ops) <= 1000 ->
+  w_pairs w p = Some ps -> 0 < supply w (p_lp ps) ->
+  exists b, path b (pool_at w p ps) (pool_at (run w ops) p ps).
+Proof. exact run_pool_path_variant. Qed.
+Print Assumptions C03_history_path.
+
+Theorem C03_history_path_flag : forall ops w p ps,
+  WF w -> Solvent w -> Inert' w -> user_ops w ops -> w_next (run w ops) <= 1000 ->
+  (Forall (fun o => routerless o = true) ops \/ w_pairs w (w_rtr w) = None) ->
+  w_pairs w p = Some ps -> 0 < supply w (p_lp ps) ->
+  exists b, path_at (p_comm ps) b (pool_at w p ps) (pool_at (run w ops) p ps) /\
+            (Forall (fun o => swapless o = true) ops -> b = false).
+Proof. exact run_pool_path_flag. Qed.
+Print Assumptions C03_history_path_flag.
+
+Theorem C03_router_must_not_be_pair :
+  exists w o w' p ps,
+    WF w /\ Solvent w /\ Inert' w /\ ~ is_contract w (caller_of o) /\ exec w o = Ok w' /\
+    w_pairs w p = Some ps /\ 0 < supply w (p_lp ps) /\
+    pool_at w p ps = (1000000, 1000000, 1000000) /\ pool_at w' p ps = (0, 1000000, 1000000) /\
+    ~ path false (pool_at w p ps) (pool_at w' p ps).
+Proof. exact exec_pool_path_needs_router_not_pair. Qed.
+Print Assumptions C03_router_must_not_be_pair.
+
+Theorem C03_swapless_tx : forall w o w' p ps,
+  WF w -> Solvent w -> Inert' w -> ~ is_contract w (caller_of o) -> swapless o = true ->
+  exec w o = Ok w' -> w_pairs w p = Some ps -> 0 < supply w (p_lp ps) ->
+  value_le (pool_at w p ps) (pool_at w' p ps) /\ 0 < supply w' (p_lp ps).
+Proof. exact exec_swapless_value_le. Qed.
+Print Assumptions C03_swapless_tx.
+
+From HT Require Import Proofs.ValueHistProofs2.
+Theorem C03_clean_tx : forall w o w' p ps,
+  WF w -> Solvent w -> Inert' w -> w_pairs w (w_rtr w) = None -> ~ is_contract w (caller_of o) -> clean_op_r w o ->
+  exec w o = Ok w' -> w_pairs w p = Some ps -> 0 < supply w (p_lp ps) ->
+  path false (pool_at w p ps) (pool_at w' p ps).
+Proof. exact exec_clean_value_router. Qed.
+Print Assumptions C03_clean_tx.
+
+Theorem C03_history_no_routes : forall ops w p ps,
+  WF w -> Solvent w -> Inert' w -> user_ops w ops -> w_next (run w ops) <= 1000 -> clean_ops w ops ->
+  w_pairs w p = Some ps -> 0 < supply w (p_lp ps) ->
+  value_le (pool_at w p ps) (pool_at (run w ops) p ps) /\ 0 < supply (run w ops) (p_lp ps).
+Proof. exact run_clean_value. Qed.
+Print Assumptions C03_history_no_routes.
+
+Theorem C03_history : forall ops w p ps,
+  WF w -> Solvent w -> Inert' w -> w_pairs w (w_rtr w) = None -> user_ops w ops -> w_next (run w ops) <= 1000 ->
+  clean_ops_r w ops -> w_pairs w p = Some ps -> 0 < supply w (p_lp ps) ->
+  value_le (pool_at w p ps) (pool_at (run w ops) p ps) /\ 0 < supply (run w ops) (p_lp ps).
+Proof. exact run_clean_value_router. Qed.
+Print Assumptions C03_history.
+
+Theorem C03_history_example :
+  exists ps, w_pairs ex_w 5 = Some ps /\
+    value_le (pool_at ex_w 5 ps) (pool_at (run ex_w ex_clean_r) 5 ps) /\ 0 < supply (run ex_w ex_clean_r) (p_lp ps) /\
+    pool_at (run ex_w ex_clean_r) 5 ps <> pool_at ex_w 5 ps.
+Proof. exact run_clean_value_router_example. Qed.
+Print Assumptions C03_history_example.
